@@ -95,13 +95,13 @@ theorem unpack1_H {i : Nat} (h : i < 256 ^ 2) : unpack1 "<H" (leBytes 2 i) = .ok
   rw [List.take_of_length_le (Nat.le_of_eq (leBytes_length 2 i)), leVal_leBytes_of_lt h]
 
 /-- `_param_updated` on a write reply `index ++ value bytes` for element `e` -/
-theorem paramUpdated_write (h : Host) (e : Elem) (vb : List UInt8) (val : Val)
+theorem paramUpdated_reply (c : Nat) (hc3 : c ≠ 3) (h : Host) (e : Elem) (vb : List UInt8) (val : Val)
     (hid : e.ident < 256 ^ idWidth h.useV2) (hby : elemById h.toc e.ident = some e) (hdec : unpack1 e.fmt vb = .ok val)
     (hupd : h.isUpdated = true) :
-    paramUpdated h { chan := 2, data := leBytes (idWidth h.useV2) e.ident ++ vb } =
+    paramUpdated h { chan := c, data := leBytes (idWidth h.useV2) e.ident ++ vb } =
       .ok ({ h with values := (e.group, e.name, val) :: h.values }, fanout h e.group e.name val) := by
   unfold paramUpdated
-  have hc : (2 : Nat) ≠ Gen.C04.MISC_CHANNEL := by rw [gen_write_channel.2.2.1]; decide
+  have hc : c ≠ Gen.C04.MISC_CHANNEL := by rw [gen_write_channel.2.2.1]; exact hc3
   simp only [hc, if_false]
   cases hv : h.useV2
   · rw [hv] at hid
@@ -182,7 +182,7 @@ theorem write_roundtrip (S2F : List Char → Except PyErr Nat) (v : Variant) (hv
     obtain ⟨l1, l2, l3, l4, l5, l6⟩ := gen_lens
     simp only [lockPatternOf, relPattern, l1, l2, l3, l5, l6, gen_write_channel.2.2.1, show ¬ (p.chan = 3) from (by show ¬ ((2 : Nat) = 3); decide), if_false]
   have hpu : paramUpdated hA p = .ok ({ hA with values := (e.group, e.name, val) :: vals }, fanout hA e.group e.name val) :=
-    paramUpdated_write hA e vb val hidr hbi hdec rfl
+    paramUpdated_reply 2 (by decide) hA e vb val hidr hbi hdec rfl
   let hB : Host := ⟨toc, dev.v2, dev.v2, true, true, (e.group, e.name, val) :: vals, [], none, false, none, [], ncb, gcb, acb, ncl, gcl⟩
   have hfo : fanout hA e.group e.name val = fanout h0 e.group e.name val := rfl
   have hrx : rx v hA p = (hB, .rxd p :: (fanout h0 e.group e.name val ++ [.released p] ++ [])) := by
@@ -225,6 +225,154 @@ theorem write_roundtrip (S2F : List Char → Except PyErr Nat) (v : Variant) (hv
     simp only [List.nil_append, List.append_nil]
     rfl
   · exact ⟨rfl, rfl, rfl, rfl, rfl, rfl, rfl, rfl⟩
+
+/-! ### a read: request, transmit, reply with status byte, cache -/
+
+theorem unpack1_of_length {c : Code} (hc : c.takesVal = true) (bs : List UInt8) (hl : bs.length = c.size) :
+    unpack [c] bs = .ok [unpackOne c (bs.take c.size)] := by
+  simp only [unpack, hl, Nat.lt_irrefl, if_false, hc, if_true]
+  rw [List.drop_of_length_le (Nat.le_of_eq hl)]
+  simp [unpack, bind, Except.bind, pure, Except.pure]
+
+structure ReadReady (s : Sys) (e : Elem) (t : NumType) (dp : DevParam) : Prop where
+  idle : s.Idle
+  down : s.down = []
+  upd : s.host.isUpdated = true
+  byName : lookupElem s.host.toc e.group e.name = some e
+  byId : elemById s.host.toc e.ident = some e
+  ty : e.tcode = t.code
+  idr : e.ident < 256 ^ idWidth s.dev.v2
+  dev : s.dev.params[e.ident]? = some dp
+  width : dp.value.length = t.width
+
+/-- `request_param_update`: one packet `index` on the read channel; the device answers `index [status] value`; the status
+byte (current protocol generation only) is removed before decoding; cache and callbacks carry the device's value -/
+theorem read_roundtrip (S2F : List Char → Except PyErr Nat) (v : Variant) (hv : v.routing = 1) (hs : v.snap = true)
+    (s : Sys) (e : Elem) (t : NumType) (dp : DevParam) (hr : ReadReady s e t dp) (th : Nat) :
+    ∃ s' outs val,
+      Sys.run S2F v s [.api th (.requestUpdate [e.group, e.name]), .updGet, .updSend, .deliver] = some (s', outs) ∧
+      txsOf outs = [{ chan := 1, data := leBytes (idWidth s.dev.v2) e.ident }] ∧
+      rxdsOf outs = [{ chan := 1, data := leBytes (idWidth s.dev.v2) e.ident ++ (if s.dev.v2 then [0] else []) ++ dp.value }] ∧
+      s'.dev = s.dev ∧
+      unpack1 e.fmt dp.value = .ok val ∧
+      getVal s'.host.values e.group e.name = some val ∧
+      updatesOf outs = fanout s.host e.group e.name val ∧
+      s'.Idle ∧ s'.down = [] := by
+  obtain ⟨_, hpf, _, _⟩ := type_table t
+  have hfmt : e.fmt = fmtOf t.code := by rw [Elem.fmt_eq, hr.ty]
+  let val : Val := unpackOne t.structCode (dp.value.take t.structCode.size)
+  have hdec : unpack1 e.fmt dp.value = .ok val := by
+    unfold unpack1
+    rw [hfmt, hpf, unpack1_of_length (by cases t <;> rfl) dp.value (by rw [hr.width]; cases t <;> rfl)]
+  obtain ⟨⟨i1, i2, i3, i4, i5, i6, i7, i8⟩, hdown, hupd, hbn, hbi, hty, hidr, hdev, hwid⟩ := hr
+  rcases s with ⟨⟨toc, useV2, updV2, ini, isU, vals, q, cur, lk, pat, pend, ncb, gcb, acb, ncl, gcl⟩, dev, down⟩
+  simp only at i1 i2 i3 i4 i5 i6 i7 i8 hdown hupd hbn hbi hidr hdev
+  subst i1 i2 i3 i4 i5 i7 i8 hdown hupd
+  simp only
+  let h0 : Host := ⟨toc, dev.v2, dev.v2, ini, true, vals, [], none, false, none, [], ncb, gcb, acb, ncl, gcl⟩
+  let p : Pkt := { chan := 1, data := leBytes (idWidth dev.v2) e.ident }
+  let rep : Pkt := { chan := 1, data := leBytes (idWidth dev.v2) e.ident ++ (if dev.v2 then [0] else []) ++ dp.value }
+  have hlen : (leBytes (idWidth dev.v2) e.ident).length = idWidth dev.v2 := leBytes_length _ _
+  have h1 : requestUpdate h0 [e.group, e.name] dev.v2 = (enqueue h0 p, [.enq p none]) := by
+    have hbn' : lookupElem h0.toc e.group e.name = some e := hbn
+    simp only [requestUpdate, elementId, hbn', Option.map_some, idBytes_ok gen_set_id_fmts.2.2.1 gen_set_id_fmts.2.2.2 hidr,
+      gen_write_channel.2.1]
+    rfl
+  let hA : Host := ⟨toc, dev.v2, dev.v2, ini, true, vals, [], none, true, some (lockPatternOf dev.v2 p), [], ncb, gcb, acb, ncl, gcl⟩
+  have hdevh : dev.handle p = (dev, [rep]) := by
+    have hh : dev.handle p = dev.read p.data := by simp [Dev.handle, p]
+    rw [hh]
+    unfold Dev.read Dev.pid
+    rw [Dev.idw_eq, if_pos (by show idWidth dev.v2 ≤ (leBytes (idWidth dev.v2) e.ident).length; omega)]
+    have ht : (leBytes (idWidth dev.v2) e.ident).take (idWidth dev.v2) = leBytes (idWidth dev.v2) e.ident :=
+      List.take_of_length_le (by omega)
+    simp only [p, ht, leVal_leBytes_of_lt hidr, hdev]
+    rfl
+  have hw : idWidth dev.v2 = (if dev.v2 then 2 else 1) := rfl
+  have htk : ∀ (x y : List UInt8), (leBytes (idWidth dev.v2) e.ident ++ x ++ y).take (idWidth dev.v2) = leBytes (idWidth dev.v2) e.ident := by
+    intro x y
+    rw [List.append_assoc, List.take_append_of_le_length (by omega), List.take_of_length_le (by omega)]
+  have hpat : lockPatternOf dev.v2 p = leBytes (idWidth dev.v2) e.ident := by
+    obtain ⟨l1, l2, l3, _⟩ := gen_lens
+    have hd : p.data = leBytes (idWidth dev.v2) e.ident := rfl
+    simp only [lockPatternOf, l1, l2, l3, gen_write_channel.2.2.1, show ¬ (p.chan = 3) from (by show ¬ ((1 : Nat) = 3); decide), if_false, hd]
+    split
+    · rename_i h2; rw [List.take_of_length_le (by rw [hlen, hw, if_pos h2]; omega)]
+    · rename_i h2; rw [List.take_of_length_le (by rw [hlen, hw, if_neg h2]; omega)]
+  have hrel : relPattern dev.v2 rep = leBytes (idWidth dev.v2) e.ident := by
+    obtain ⟨_, _, _, _, l5, l6⟩ := gen_lens
+    have hd : rep.data = leBytes (idWidth dev.v2) e.ident ++ (if dev.v2 then [0] else []) ++ dp.value := rfl
+    simp only [relPattern, l5, l6, hd]
+    split
+    · rename_i h2
+      have := htk (if dev.v2 then [0] else []) dp.value
+      rw [hw, if_pos h2] at this; rw [hw, if_pos h2]; exact this
+    · rename_i h2
+      have := htk (if dev.v2 then [0] else []) dp.value
+      rw [hw, if_neg h2] at this; rw [hw, if_neg h2]; exact this
+  have hstrip : stripStatus dev.v2 rep = { chan := 1, data := leBytes (idWidth dev.v2) e.ident ++ dp.value } := by
+    unfold stripStatus
+    have hd : rep.data = leBytes (idWidth dev.v2) e.ident ++ (if dev.v2 then [0] else []) ++ dp.value := rfl
+    split
+    · rename_i h2
+      have hv2 : dev.v2 = true := h2.1
+      have hl2 : (leBytes (idWidth dev.v2) e.ident).length = 2 := by rw [hlen, hw, if_pos hv2]
+      show ({ chan := 1, data := rep.data.take 2 ++ rep.data.drop 3 } : Pkt) = _
+      rw [hd, if_pos hv2]
+      congr 1
+      rw [List.append_assoc, List.take_append_of_le_length (by omega), List.take_of_length_le (by omega),
+        List.drop_append, List.drop_of_length_le (by omega : (leBytes (idWidth dev.v2) e.ident).length ≤ 3), hl2]
+      simp
+    · rename_i h2
+      have hv2 : dev.v2 = false := by
+        cases hv : dev.v2
+        · rfl
+        · exact absurd ⟨hv, gen_write_channel.2.1.symm⟩ h2
+      show rep = _
+      show ({ chan := 1, data := rep.data } : Pkt) = _
+      rw [hd, if_neg (by simp [hv2])]
+      simp
+  have hpu : paramUpdated hA { chan := 1, data := leBytes (idWidth dev.v2) e.ident ++ dp.value } =
+      .ok ({ hA with values := (e.group, e.name, val) :: vals }, fanout hA e.group e.name val) :=
+    paramUpdated_reply 1 (by decide) hA e dp.value val hidr hbi hdec rfl
+  let hB : Host := ⟨toc, dev.v2, dev.v2, ini, true, (e.group, e.name, val) :: vals, [], none, false, none, [], ncb, gcb, acb, ncl, gcl⟩
+  have hrx : rx v hA rep = (hB, .rxd rep :: (fanout h0 e.group e.name val ++ [.released rep] ++ [])) := by
+    have hur : updaterRx hA rep = (hB, fanout h0 e.group e.name val ++ [.released rep],
+        { chan := 1, data := leBytes (idWidth dev.v2) e.ident ++ dp.value }) := by
+      unfold updaterRx
+      rw [if_pos (Or.inl gen_write_channel.2.1.symm)]
+      simp only
+      rw [show hA.updV2 = dev.v2 from rfl, hstrip, show hA.pattern = some (lockPatternOf dev.v2 p) from rfl, hpat, hrel, if_pos rfl, hpu]
+      rfl
+    unfold rx
+    rw [hur]
+    simp only
+    rw [miscRx_snap v hv hs]
+    rfl
+  refine ⟨{ host := hB, dev := dev, down := [] },
+    [.enq p none] ++ ([] ++ ([.tx p] ++ (.rxd rep :: (fanout h0 e.group e.name val ++ [.released rep] ++ [])))), val, ?_, ?_, ?_, rfl,
+    hdec, ?_, ?_, ⟨rfl, rfl, rfl, rfl, rfl, rfl, rfl, rfl⟩, rfl⟩
+  · have hg : updGet (enqueue h0 p) = some { h0 with cur := some p, queue := [] } := rfl
+    have hsnd : updSend { h0 with cur := some p, queue := [] } = some (hA, [.tx p]) := rfl
+    simp only [Sys.run, Sys.step, Api.run]
+    rw [show requestUpdate ⟨toc, dev.v2, dev.v2, ini, true, vals, [], none, false, none, [], ncb, gcb, acb, ncl, gcl⟩ [e.group, e.name] dev.v2
+      = (enqueue h0 p, [.enq p none]) from h1]
+    simp only [hg, Option.map_some, hsnd, List.nil_append]
+    rw [hdevh]
+    simp only [hrx, List.append_nil]
+  · simp [txsOf, fanout, List.filterMap_append, List.filterMap_map]
+    rfl
+  · simp [rxdsOf, fanout, List.filterMap_append, List.filterMap_map]
+    simp [rep, List.append_assoc]
+  · simp [getVal, hB]
+  · have e1 : updatesOf [Out.enq p none] = [] := rfl
+    have e2 : updatesOf [Out.tx p] = [] := rfl
+    have e3 : ∀ l, updatesOf (Out.rxd rep :: l) = updatesOf l := fun _ => rfl
+    have e4 : updatesOf [Out.released rep] = [] := rfl
+    simp only [List.nil_append, List.append_nil]
+    rw [updatesOf_append, e1, updatesOf_append, e2, e3, updatesOf_append, e4, updatesOf_fanout]
+    simp only [List.nil_append, List.append_nil]
+    rfl
 
 /-! ### update-callback fan-out: every registration is called exactly once -/
 
